@@ -1,11 +1,23 @@
 #!/bin/bash
-# regress.sh: must-fire (seeded changes) and must-stay-silent (refactoring corpus, benign edits) suites against the current rules
+# regress.sh: must-fire (seeded changes) and must-stay-silent (refactoring / feature corpora, benign edits) suites against the
+# current rules; the seeded matrix runs in 4 shards
 cd /verif
-python3 tools/matrix.py /verif/seeded --write-expectations > /tmp/regress_seeded.log 2>&1
-python3 tools/matrix.py /verif/selftest/refactor2 > /tmp/regress_refactor2.log 2>&1
-python3 tools/benign.py > /tmp/regress_benign.log 2>&1
-echo "== seeded: $(grep -c DETECTED-BY /tmp/regress_seeded.log) detected, $(grep -c ' missed ' /tmp/regress_seeded.log) missed, $(grep -c ERROR /tmp/regress_seeded.log) errors"
-echo "== refactor2 false alarms: $(grep -c DETECTED-BY /tmp/regress_refactor2.log); errors $(grep -c ERROR /tmp/regress_refactor2.log)"
-grep DETECTED-BY /tmp/regress_refactor2.log | cut -c1-300
-echo "== benign false alarms: $(grep -c FALSE-ALARM /tmp/regress_benign.log)"
-grep -v silent /tmp/regress_benign.log | grep -v conda | cut -c1-300
+L=${REGRESS_LOGS:-/tmp}
+for i in 0 1 2 3; do
+  python3 tools/matrix.py /verif/seeded --shard $i/4 --out $L/seeded_shard$i.json > $L/regress_seeded_$i.log 2>&1 &
+done
+wait
+cat $L/regress_seeded_?.log | grep -v conda > $L/regress_seeded.log
+python3 tools/matrix.py /verif/seeded --merge $L/seeded_shard0.json $L/seeded_shard1.json $L/seeded_shard2.json $L/seeded_shard3.json --write-expectations > /dev/null 2>&1
+for c in refactor2 refactor4 refactor5 features3 features5; do
+  python3 tools/matrix.py /verif/selftest/$c > $L/regress_$c.log 2>&1 &
+done
+python3 tools/benign.py > $L/regress_benign.log 2>&1 &
+wait
+echo "== seeded: $(grep -c DETECTED-BY $L/regress_seeded.log) detected, $(grep -c ' missed ' $L/regress_seeded.log) missed, $(grep -c ERROR $L/regress_seeded.log) errors"
+for c in refactor2 refactor4 refactor5 features3 features5; do
+  echo "== $c alarms: $(grep -c DETECTED-BY $L/regress_$c.log) of $(grep -c -E 'DETECTED-BY| missed ' $L/regress_$c.log); errors $(grep -c ERROR $L/regress_$c.log)"
+  grep DETECTED-BY $L/regress_$c.log | cut -c1-260
+done
+echo "== benign false alarms: $(grep -c FALSE-ALARM $L/regress_benign.log)"
+grep -v silent $L/regress_benign.log | grep -v conda | cut -c1-300
